@@ -93,8 +93,7 @@ theorem catLoop_skip (m : Mode) (p : Prov) (hcs : 4 ≤ p.cs) (cat : Nat) (fuel 
     generalize hx : (if c.body.length / 2 = 0 then ne + 1 else ne) = x
     have hx' : x = ne + (if c.body.length / 2 = 0 then 1 else 0) := by rw [← hx]; split <;> rfl
     rw [if_neg (by simp only [Gen.Eeprom.EMPTY_CATEGORY_LIMIT]; omega)]
-    rw [mul16_ok _ _ _ _ (by omega), bind_ret]
-    rw [if_neg hcat, if_neg hend, add16_ok _ _ _ _ (by omega), bind_ret, hx']
+    rw [if_neg hcat, if_neg hend, if_pos (by omega), hx']
     rfl
   generalize hR : catLoop m p cat fuel (wa + 2 + c.body.length / 2)
     (ne + (if c.body.length / 2 = 0 then 1 else 0)) (calls + 1) = R
@@ -119,7 +118,6 @@ theorem catLoop_found (m : Mode) (p : Prov) (hcs : 4 ≤ p.cs) (cat : Nat) (fuel
     generalize hx : (if c.body.length / 2 = 0 then ne + 1 else ne) = x
     have hx' : x = ne + (if c.body.length / 2 = 0 then 1 else 0) := by rw [← hx]; split <;> rfl
     rw [if_neg (by simp only [Gen.Eeprom.EMPTY_CATEGORY_LIMIT]; omega)]
-    rw [mul16_ok _ _ _ _ (by omega), bind_ret]
     rw [if_pos hcat]
     unfold Range.new
     rw [mul16_ok _ _ _ _ (by omega), mul16_ok _ _ _ _ (by omega)]
@@ -149,7 +147,7 @@ theorem catLoop_end (m : Mode) (p : Prov) (hcs : 4 ≤ p.cs) (cat : Nat) (fuel w
     generalize (if rd16 (List.drop 2 (chunkAt p wa)) = 0 then ne + 1 else ne) = x
     by_cases hlim : x ≥ Gen.Eeprom.EMPTY_CATEGORY_LIMIT
     · rw [if_pos hlim]; rfl
-    · rw [if_neg hlim, mul16_ok _ _ _ _ (by omega), bind_ret, ht, if_neg (fun h => hcat h.symm), if_pos rfl]
+    · rw [if_neg hlim, ht, if_neg (fun h => hcat h.symm), if_pos rfl]
       rfl
   unfold catLoop
   generalize catStep m cat (chunkAt p wa) wa ne = st at hstep
